@@ -351,6 +351,26 @@ void run_case(Choices &c, Ctx &ctx)
 			a.a.push_back(Val::dbl(g.finite_double()));
 			v = a;
 		}
+		if (c.coin(30))
+		{
+			// long formatted texts: the decimal separator sits far from the start
+			Val a = Val::arr();
+			a.a.push_back(v);
+			for (size_t i = 0, n = 1 + c.pickn(3); i < n; i++)
+			{
+				double mag;
+				switch (c.pickn(4))
+				{
+				case 0: mag = 1e15 + (double)c.range(0, 3500000000000000ULL) + 0.5; break; // 16 integer digits + .5
+				case 1: mag = (double)c.range(1, 999999) * 1e9 + 0.25; break;
+				case 2: mag = 4503599627370495.5 - (double)c.range(0, 1000); break;
+				default: mag = (double)c.range(1, 1u << 30) + 0.125; break;
+				}
+				a.a.push_back(Val::dbl(c.coin(50) ? -mag : mag));
+			}
+			v = a;
+			ctx.label("long_double_text");
+		}
 		json_object *j = build(v);
 		int flags = (int)c.range(0, 63);
 		bool custom = c.coin(20);
